@@ -28,7 +28,7 @@ if [ $applies = yes ]; then
   if go build ./... >"$w/build.out" 2>&1 && go test -vet=off -count=1 ./... >"$w/suite.out" 2>&1; then res_suite=pass; else res_suite=FAIL; fi
 fi
 checks=""
-cd /verif
+cd "${VERIF_HOME:-/verif}"
 for id in "$@"; do
   out=$(VERIF_REPO="$w/pprof" VERIF_OUT_DIR="$w/out" ${SEEDTIER_ENV:-} ./check "$id" "${TIER:-quick}" 2>&1); rc=$?
   line=$(echo "$out" | grep -m1 "detail:" | cut -c1-260 | tr '"' "'" | tr '\\' '/')
